@@ -122,6 +122,7 @@ def gen(seed: int, i: int, tier: str) -> dict:
         scn["tapes"] = {"w.fail.set": [rng.choice([0, 1, 2]) for _ in range(3)]}
         if rng.random() < 0.4:
             scn["switch_to"] = rng.choice([p for p in G.PROTOS_2X if p != proto])
+        scn["reenter_while_held"] = rng.random() < 0.3
         scn["noise"] = [rng.choice(["0;255;3;0;14;Gateway startup complete.\n", "0;255;3;0;9;log\n", f"0;255;3;0;2;{proto}\n",
                                     "9;255;0;0;17;2.0\n", "255;255;3;0;3;\n", "2;0;0;0;3;c\n", "2;1;1;0;2;1\n",
                                     "2;255;3;0;0;50\n", "2;0;2;0;47;\n", "1;255;3;0;6;\n"])
@@ -345,6 +346,10 @@ def _batch(scn, proto, res):
         for noise in scn.get("noise", []):
             w.listen_step(noise)
             res.probes["traffic_while_held"] += 1
+        if scn.get("reenter_while_held"):
+            # the application's reconnect loop leaves and re-enters the context on the same Gateway object
+            w.reenter()
+            res.probes["reenter_while_held"] += 1
         if scn.get("switch_to"):
             # the gateway was updated between parking and the wake: held messages must survive
             proto = scn["switch_to"]
